@@ -287,6 +287,35 @@ theorem c02_ptr_history_ordered (cmpF : Int → Int → Int) (hLaw : Ekit.RB.Law
     ∃ t, Holds st t ∧ (t.addrs.map fun a => (st.h a).key).Pairwise fun x y => cmpF x y < 0 :=
   c02_ptr_history_ordered_of cmpF hLaw (fixSpec_holds cmpF) fuel ops st h
 
+/-! the size counter at the pointer level -/
+
+/-- C02: every operation that returns keeps `rb.size` equal to the number of nodes of the tree the heap holds -/
+theorem c02_ptr_step_size (cmpF : Int → Int → Int) (fuel : Nat) (st : St) (op : POp)
+    (r : Val) (st' : St) (hW : SizeWF st) (h : op.run cmpF fuel st = .ok (r, st')) : SizeWF st' := by
+  cases op with
+  | add k v => exact sizewf_add cmpF fuel k v st r st' hW h
+  | delete k => exact sizewf_delete cmpF fuel k st r st' hW h
+  | find k => exact sizewf_find cmpF fuel k st r st' hW h
+  | set k v => exact sizewf_set cmpF fuel k v st r st' hW h
+
+/-- C02: after any history from `NewRBTree`, for EVERY comparator function, the reported size equals the node count -/
+theorem c02_ptr_history_size (cmpF : Int → Int → Int) (fuel : Nat) (ops : List POp) :
+    ∀ st st', SizeWF st → runOps cmpF fuel st ops = some st' → SizeWF st' := by
+  induction ops with
+  | nil => intro st st' hW h; simp [runOps] at h; subst h; exact hW
+  | cons op ops ih =>
+    intro st st' hW h
+    simp only [runOps] at h
+    cases h1 : op.run cmpF fuel st with
+    | error e => simp [h1] at h
+    | ok r1 =>
+      obtain ⟨r, st1⟩ := r1
+      rw [h1] at h
+      exact ih st1 st' (c02_ptr_step_size cmpF fuel st op r st1 hW h1) h
+
+theorem c02_ptr_new_size : SizeWF newTree :=
+  ⟨.leaf, ⟨by simp [Repr, newTree], by simp [PT.addrs], by simp [PT.addrs]⟩, by simp [newTree, PT.addrs]⟩
+
 /-! non-vacuity: that histories run to completion (so that `runOps … = some st` is satisfiable) is what the trace acceptor
     `Driver/Rbptr.lean` establishes on every check: it runs `call cmpF procs` on ~25 000 operations per run and every one
     returns `.ok`; a kernel `decide` of the interpreter on a closure-represented heap is too expensive to keep here. -/
